@@ -4,7 +4,7 @@
    (empty, overlapping or quote-like markers included). Termination of the model is by
    construction (structural recursion / fuel bounded by the input length). *)
 From Coq Require Import NArith List.
-From SG Require Import Counter.Lexer Counter.Sloc Counter.Proofs_C03.
+From SG Require Import Counter.Lexer Counter.Sloc Counter.Proofs_C03 Counter.LexerIdx Counter.ProofsIdx.
 Import ListNotations.
 Open Scope N_scope.
 
@@ -48,6 +48,26 @@ Theorem C03_append_ignored_only_by_directive : forall (sy : syntax) (ls ls' : li
               N.of_nat (length ls) + N.of_nat k < 10.
 Proof. exact append_ignored_only_by_directive. Qed.
 Print Assumptions C03_append_ignored_only_by_directive.
+
+(* termination and absence of out-of-range accesses of the index arithmetic: the index-level mirror of
+   find_outside_string (Counter/LexerIdx.v: chars[i], chars[i + 1], chars[i + 2], chars[i..], chars[..i],
+   i += consumed, raw-string skipping with its own index loops) returns Ok for EVERY char vector, needle
+   and flag -- never Panic (an access Rust would bounds-check) and never OutOfFuel (a loop iteration that
+   does not advance) -- and computes exactly the list-level model *)
+Theorem C03_scanner_index_safe : forall (cs needle : str) (skip_raw : bool),
+  find_outside_string_idx cs needle skip_raw = Ok (find_outside_string cs needle skip_raw).
+Proof. exact find_outside_string_idx_ok. Qed.
+Print Assumptions C03_scanner_index_safe.
+
+Theorem C03_skipper_index_safe : forall (cs : str) (i : nat) (st : skst) (tr : bool) (c : char) (tl : str),
+  skipn i cs = c :: tl ->
+  process_impl_idx cs i st tr = Ok (process_impl st c tl tr) /\
+  (1 <= snd (process_impl st c tl tr) <= 1 + length tl)%nat.
+Proof.
+  intros cs i st tr c tl H. split; [exact (process_impl_idx_ok cs i st tr c tl H)|].
+  destruct (process_impl st c tl tr) as [st' k] eqn:E. exact (process_impl_consumed _ _ _ _ _ _ E).
+Qed.
+Print Assumptions C03_skipper_index_safe.
 
 (* non-vacuity: a concrete source with a comment, a blank and an ignored line *)
 Example C03_nonvacuous :
